@@ -59,7 +59,7 @@ Section WithH.
       r_pos st = length wire -> r_ctx st = ctx ->
       get_rr H out (KR_Key k) rmac now2 multi 3 count (count - 1) st
       = Ok {| r_pos := length out; r_tsig := Some (kname k, rd'); r_ctx := c';
-              r_recs := (3, TSIG, ANY, length wire) :: r_recs st |}.
+              r_recs := (3, TSIG, ANY, length wire) :: r_recs st; r_opt := r_opt st |}.
   Proof.
     intros until st. intros SM Vk Va AB L12 Er Al Ti Pos Cx.
     apply sign_message_inv in SM as (SG & ad & rr & AD & RR & ->).
@@ -192,7 +192,7 @@ Section WholeRead.
       ((fst fl / 2048) mod 16 =? 5) = false ->
       get_question out (Z.to_nat (fst qd)) 12 = Ok p ->
       get_section H out (KR_Key k) rmac now2 multi 1 (fst an) (Z.to_nat (fst an))
-        {| r_pos := p; r_tsig := None; r_ctx := ctx; r_recs := [] |} = Ok s1 ->
+        {| r_pos := p; r_tsig := None; r_ctx := ctx; r_recs := []; r_opt := false |} = Ok s1 ->
       get_section H out (KR_Key k) rmac now2 multi 2 (fst au) (Z.to_nat (fst au)) s1 = Ok s2 ->
       1 <= fst ad ->
       get_section_n out (KR_Key k) rmac now2 multi 3 (fst ad) 0 (Z.to_nat (fst ad - 1)) s2 = Ok s3 ->
